@@ -27,8 +27,13 @@ mod verif;
 mod zobrist;
 
 mod bridge;
+mod c10;
 mod checks;
 mod e1_posgraph;
+mod e2_clockpoints;
+mod e2_oracles;
+mod refsearch;
+mod tb;
 mod e5_pure;
 mod json;
 mod report;
